@@ -118,6 +118,31 @@ func init() {
 	oracles["c09.cli"] = oracleC09CLI
 }
 
+// escalateFormat: a line or file on which the model of the formatter (or of a directive pattern) and the code disagree
+// becomes whole files that carry the format oracles (format twice, --check, generate before/after).
+func escalateFormat(d Disagreement) []Case {
+	if len(d.Op.Args) == 0 {
+		return nil
+	}
+	var files []string
+	switch {
+	case d.Op.Name == "format.file" || d.Op.Name == "format.check":
+		files = []string{string(d.Op.Args[0])}
+	case d.Op.Name == "format.processLine" || strings.HasPrefix(d.Op.Name, "pat."):
+		l := strings.NewReplacer("\n", "", "\r", "").Replace(string(d.Op.Args[0]))
+		files = []string{l + "\n", "##!> assemble\n" + l + "\nfoo\n##!<\n", "foo\n" + l + "\nbar\n"}
+	default:
+		return nil
+	}
+	var cases []Case
+	for _, f := range files {
+		args := [][]byte{{}, {}, {}, {}, {}, {}, []byte(f), []byte("i"), []byte("foo.ra"), []byte("a\nb\n"), []byte("i"), []byte("bar.ra"), []byte("c\n")}
+		cases = append(cases, Case{Kind: "escalated-format", Ops: []Op{{"format.file", [][]byte{[]byte(f)}}},
+			Oracles: []Op{{"c09.format", [][]byte{[]byte(f)}}, {"c10.meaning", args}}})
+	}
+	return cases
+}
+
 var patOps = []string{"pat.blockStart", "pat.blockEnd", "pat.flags", "pat.prefix", "pat.suffix", "pat.definition", "pat.include", "pat.includeExcept", "pat.comment", "pat.processorStart", "pat.assembleInput", "pat.assembleOutput", "pat.splitArgs"}
 
 func patternCases(r *rand.Rand, n int) []Case {
@@ -394,7 +419,8 @@ func genFormatCases(r *rand.Rand, tier string, withOracle bool) []Case {
 
 func init() {
 	properties["C09"] = &Property{
-		ID: "C09", LeanMods: []string{"CrsProps.C09"},
+		Escalate: escalateFormat,
+		ID:       "C09", LeanMods: []string{"CrsProps.C09"},
 		Corr: "K1 (every directive regexp vs Crs.Pat recognisers on pattern-directed lines), K6 (processLine, processFile vs Crs.Format), K10 (format binary)",
 		Rule: "single lines generated around the directive grammar (members, near misses, boundary mutants of each pattern); whole .ra files of 0..14 such lines with tabs/spaces, CRLF, missing final newline, empty, white-space-only and header-carrying files; non-trivial = at least one directive or indentation change; distinct by bytes",
 		Gen:  func(r *rand.Rand, tier string, env *Env) []Case { return genFormatCases(r, tier, true) },
